@@ -7,7 +7,7 @@ def _sum(results, key):
 
 CHECKS = {}
 # checks run end-to-end and reviewed by the lead; only these are claimed in MANIFEST.json
-REVIEWED = ["C01", "C02", "C03", "C04", "C05", "C06", "C07", "C09", "C10", "C11", "C12", "C13", "C14", "C15", "C17", "C18", "C19", "C20"]
+REVIEWED = ["C01", "C02", "C03", "C04", "C05", "C06", "C07", "C08", "C09", "C10", "C11", "C12", "C13", "C14", "C15", "C17", "C18", "C19", "C20"]
 NOT_APPLICABLE = {}  # property -> reason, for properties deliberately not claimed
 
 # ------------------------------------------------------------------------------------------------ C01
